@@ -895,6 +895,16 @@ class Magnitude(Number):
         )
 
 
+def _date_str(value):
+    # (strftime('%Y') does not zero-pad years below 1000 on every platform,
+    # and strptime('%Y') needs four digits)
+    return f"{value.year:04d}" + value.strftime("-%m-%d")
+
+
+def _datetime_str(value):
+    return f"{value.year:04d}" + value.strftime("-%m-%dT%H:%M:%S.%f")
+
+
 class Date(Number):
     """Date parameter of datetime or date type."""
 
@@ -945,7 +955,7 @@ class Date(Number):
             return None
         if not isinstance(value, (dt.datetime, dt.date)): # i.e np.datetime64
             value = value.astype(dt.datetime)
-        return value.strftime("%Y-%m-%dT%H:%M:%S.%f")
+        return _datetime_str(value)
 
     @classmethod
     def deserialize(cls, value):
@@ -996,7 +1006,7 @@ class CalendarDate(Number):
     def serialize(cls, value):
         if value is None:
             return None
-        return value.strftime("%Y-%m-%d")
+        return _date_str(value)
 
     @classmethod
     def deserialize(cls, value):
@@ -1411,9 +1421,9 @@ class DateRange(Range):
                 v = v.astype(dt.datetime)
             # Separate date and datetime to deserialize to the right type.
             if type(v) is dt.date:
-                v = v.strftime("%Y-%m-%d")
+                v = _date_str(v)
             else:
-                v = v.strftime("%Y-%m-%dT%H:%M:%S.%f")
+                v = _datetime_str(v)
             serialized.append(v)
         return serialized
 
@@ -1466,7 +1476,7 @@ class CalendarDateRange(Range):
         if value is None:
             return None
         # As JSON has no tuple representation
-        return [v.strftime("%Y-%m-%d") for v in value]
+        return [_date_str(v) for v in value]
 
     @classmethod
     def deserialize(cls, value):
